@@ -137,7 +137,7 @@ def run(ctx):
         n += export(g3, "T", tests, "a")
     modes = "remote,local,server,mixed"
     res = ctx.harness_json("registry", ["c15seq", tests, modes, "8" if thorough else "6"], timeout=3000)
-    if res["evaluations"] < n * 4:
+    if res["evaluations"] < n * 4 and not res.get("failures"):
         raise Infra("harness replayed %d of %d behaviours" % (res["evaluations"], n * 4))
     ctx.traces += res["evaluations"]
     ctx.failures(res["failures"])
